@@ -910,10 +910,15 @@ class SegmentWriter(IndexWriter):
         clean_files(self.storage, self.indexname, self.generation, segments)
 
     def _finish(self):
-        self._tempstorage.destroy()
-        if self.writelock:
-            self.writelock.release()
-        self.is_closed = True
+        try:
+            self._tempstorage.destroy()
+        finally:
+            # Whether or not the temporary files could be removed, this
+            # writer is finished: give the write lock back (otherwise a
+            # failing clean-up leaves the index locked)
+            if self.writelock:
+                self.writelock.release()
+            self.is_closed = True
         #self.storage.close()
 
     # Finalization methods
